@@ -49,9 +49,9 @@ CHECKS = {
  "C16": ("crash", "runtime monitoring in supervised worker processes: catch_unwind, RLIMIT_AS, counting allocator, progress watchdog with death/stall attribution", "2.3, 4/C16",
          "from_binary is run on field-targeted, multi-field, truncated and random mutants of generated and bundled ELF files in address-space-limited workers; panics are caught, aborts / signals / stalls are attributed to the exact input through a shared progress page and confirmed by re-running the case alone.", CRASH_NOTE),
  "C18": ("events", "runtime monitoring against an independent tracer (own decode, own condition table) compared with the structured trace and call stack after every step; renderers called at every step", "2.2, 4/C18",
-         "Programs of jumps, conditional jumps on all conditions, direct/indirect calls, matched and unmatched returns, ending normally or in an error, are stepped; the expected trace entries (source, target, kind, run-length count, level) and call stack are maintained independently and compared after every step, and trace()/call_stack()/to_string() must return Ok at every step and in every terminal state.", EVENT_NOTE),
+         "Programs of jumps, conditional jumps on all conditions, direct/indirect calls, matched and unmatched returns, ending normally or in an error, are stepped; the expected trace entries (source, target, kind, run-length count, level) and call stack are maintained independently and compared after every step, and trace()/call_stack()/to_string() must return Ok at every step and in every terminal state. A deep-recursion stratum nests up to 33000 (thorough: 70000) calls and returns through them, compared at checkpoints.", EVENT_NOTE),
  "C19": ("crash", "runtime monitoring in supervised worker processes: catch_unwind around step() on hostile byte strings and states, progress watchdog", "2.3, 4/C19",
-         "Millions of (byte string, steered register/flag/memory state) inputs - uniform, prefix/opcode-structured over all opcode maps, and mutated encodings of implemented forms - are stepped once each; with the hooks on, whatever still unwinds, aborts or stalls is a crash and is reported with the exact input.", CRASH_NOTE),
+         "Millions of (byte string, steered register/flag/memory state) inputs - uniform, prefix/opcode-structured over all opcode maps, and mutated encodings of implemented forms - are stepped once each on the hardware-mirrored layout, and for 1-6 steps on edge layouts (code/data/stack areas at both ends of the address space and around the non-canonical hole, zero-length areas, register values on every area edge); with the hooks on, whatever still unwinds, aborts or stalls is a crash and is reported with the exact input.", CRASH_NOTE),
  "C20": ("events", "runtime monitoring: twin machines in one process and replicas in 4 worker processes compared on every observable; used-register analysis bounds the comparison to defined registers", "2.2, 4/C20",
          "The same code and explicit inputs (a random subset of the registers, flags, memory, hooks, syscall handlers) are run on independently constructed machines in one process and in separate processes; results, error texts, defined registers, flags, memory, counts, traces must be identical, so any dependence on the constructor's random registers, HashMap seeds or other process-level randomness shows.", EVENT_NOTE),
 }
